@@ -45,9 +45,16 @@ def gen_config(r, nboards=None, rich=False, want_dcc=True):
                 if v not in vals: vals.append(v)
             return [(ids.next(), v) for v in vals]
         def dasp():
-            out = []
-            for _ in range(r.range(1, 2)):
-                out.append((ids.next(), [(r.below(32), r.below(2)) for _ in range(r.range(0, 2))]))
+            # aspects of one DCC accessory must differ on a shared port (the parser rejects an aspect contained in another)
+            ports = []
+            for _ in range(r.range(1, 3)):
+                pt = r.below(32)
+                if pt not in ports: ports.append(pt)
+            vals = [r.below(2) for _ in ports]
+            out = [(ids.next(), list(zip(ports, vals)))]
+            if r.chance(1, 2):
+                v2 = [1 - vals[0]] + [r.below(2) for _ in ports[1:]]
+                out.append((ids.next(), list(zip(ports, v2))))
             return out
         usednum = {"p": [], "s": []}
         def accnum(kind):
@@ -63,7 +70,10 @@ def gen_config(r, nboards=None, rich=False, want_dcc=True):
         if rich and r.chance(1, 3):
             l, h = dccaddr(); b["dsignals"].append({"id": ids.next(), "addrl": l, "addrh": h, "ext": r.below(2), "aspects": dasp()})
         for k in range(r.range(0, 2) if rich else r.range(0, 1)):
-            b["periphs"].append({"id": ids.next(), "num": k, "port0": r.below(256), "port1": r.below(256), "aspects": aspects()})
+            while True:       # two peripherals of one board must not share a port (the parser rejects the configuration)
+                p0, p1 = r.below(256), r.below(256)
+                if (p0, p1) not in [(q["port0"], q["port1"]) for q in b["periphs"]]: break
+            b["periphs"].append({"id": ids.next(), "num": k, "port0": p0, "port1": p1, "aspects": aspects()})
         if rich and r.chance(1, 3):
             addrs = []
             for _ in range(r.range(1, 3)):
